@@ -250,6 +250,85 @@ fn mh_case(ctx: &Ctx, rep: &mut Report, case: u64, g: &mut Sm64) {
     rep.sample(json!({"monitor": mon, "sampler": "MH", "ctx": ctxj}));
 }
 
+/// A conditional with internal state (as every real Gibbs conditional has: `sample` receives no
+/// generator, so it must carry its own): the k-th answer of a chain depends on k.
+#[derive(Clone, Debug)]
+pub struct StatefulCond {
+    pub calls: u64,
+    pub salt: u64,
+}
+impl Conditional<f64> for StatefulCond {
+    fn sample(&mut self, index: usize, given: &[f64]) -> f64 {
+        self.calls += 1;
+        let mut h = Sm64::new(self.salt ^ self.calls.wrapping_mul(0x9e37_79b9_7f4a_7c15));
+        let s: f64 = given.iter().sum();
+        h.normal() + 0.3 * (s + index as f64).sin()
+    }
+}
+
+fn gibbs_stateful_case(_ctx: &Ctx, rep: &mut Report, case: u64, g: &mut Sm64) {
+    let mon = "real";
+    let sig = "GibbsSampler::run (conditional with internal state)";
+    let n_chains = g.range(1, 8);
+    let dim = g.range(1, 6);
+    let n_runs = g.range(1, 4);
+    let lens: Vec<(usize, usize)> = (0..n_runs).map(|i| (g.range(0, 20), if i == 0 || g.chance(0.3) { g.range(0, 10) } else { 0 })).collect();
+    let inits: Vec<Vec<f64>> = (0..n_chains).map(|_| (0..dim).map(|_| g.normal()).collect()).collect();
+    let cond = StatefulCond { calls: 0, salt: g.next_u64() };
+    let progress = g.chance(0.3) && lens.iter().all(|l| l.0 >= 4);
+    let r = guard(|| {
+        let mut s = GibbsSampler::new(cond.clone(), inits.clone());
+        let mut outs = vec![];
+        for (a, d) in &lens {
+            outs.push(if progress { s.run_progress(*a, *d).unwrap().0 } else { s.run(*a, *d).unwrap() });
+        }
+        let finals: Vec<Vec<f64>> = s.chains.iter().map(|c| c.current_state.clone()).collect();
+        (outs, finals)
+    });
+    rep.evals(n_runs as u64);
+    let (outs, finals) = match r {
+        Ok(x) => x,
+        Err(m) => {
+            rep.violation(&format!("{sig} panic"), mon, case, json!({"panic": m}));
+            return;
+        }
+    };
+    let ctxj = json!({"n_chains": n_chains, "dim": dim, "runs(n_collect,n_discard)": lens, "run_progress": progress});
+    for c in 0..n_chains {
+        // by hand: the chain's own copy of the conditional lives on across run calls
+        let mut st = inits[c].clone();
+        let mut cd = cond.clone();
+        for (ri, (a, d)) in lens.iter().enumerate() {
+            if outs[ri].shape() != [n_chains, *a, dim] {
+                rep.violation(&format!("{sig} shape"), mon, case, json!({"ctx": ctxj, "run": ri, "shape": outs[ri].shape()}));
+                return;
+            }
+            for i in 0..(a + d) {
+                for j in 0..dim {
+                    st[j] = cd.sample(j, &st);
+                }
+                if i >= *d {
+                    for j in 0..dim {
+                        let v = outs[ri][[c, i - d, j]];
+                        if v.to_bits() != st[j].to_bits() {
+                            rep.violation(&format!("{sig} run-{}-does-not-continue-the-chain-as-the-previous-run-left-it", if ri == 0 { "first" } else { "later" }), mon, case,
+                                json!({"ctx": ctxj, "run": ri, "chain": c, "k": i - d, "j": j, "returned": v, "by_hand": st[j]}));
+                            return;
+                        }
+                    }
+                }
+            }
+        }
+        if finals[c].iter().zip(&st).any(|(x, y)| x.to_bits() != y.to_bits()) {
+            rep.violation(&format!("{sig} sampler-not-left-at-last-state"), mon, case, json!({"ctx": ctxj, "chain": c}));
+            return;
+        }
+    }
+    rep.held();
+    rep.count("gibbs_histories_stateful_conditional");
+    rep.distinct(("gibbs-stateful", n_chains, dim, lens.clone(), progress));
+}
+
 fn gibbs_case(_ctx: &Ctx, rep: &mut Report, case: u64, g: &mut Sm64) {
     let mon = "real";
     let sig = "GibbsSampler::run";
@@ -314,27 +393,38 @@ fn tensor3_bits<B: burn::tensor::backend::Backend>(t: &Tensor<B, 3>) -> (Vec<usi
     (dims, v.iter().map(|x| x.to_bits()).collect())
 }
 
-fn hmc_case(_ctx: &Ctx, rep: &mut Report, case: u64, g: &mut Sm64) {
+fn hmc_case<T, B>(_ctx: &Ctx, rep: &mut Report, case: u64, g: &mut Sm64, bname: &str)
+where
+    T: crate::props::c02::Scalar,
+    B: burn::tensor::backend::AutodiffBackend,
+    rand_distr::StandardNormal: rand_distr::Distribution<T>,
+    rand_distr::StandardUniform: rand_distr::Distribution<T>,
+{
     let mon = "real";
-    let sig = "HMC::run";
+    let sig = &format!("HMC::run T={} backend={bname}", T::NAME);
     let n_chains = g.range(1, 6);
     let dim = g.range(1, 5);
     let seed = g.next_u64();
     let (a, d, b) = (g.range(0, 12), g.range(0, 8), g.range(0, 12));
     let l = g.range(1, 6);
     let eps = g.uniform(0.05, 0.4);
-    let inits: Vec<Vec<f64>> = (0..n_chains).map(|_| (0..dim).map(|_| g.normal()).collect()).collect();
+    // values that are not representable in the narrower of the two float types involved
+    let inits: Vec<Vec<T>> = (0..n_chains).map(|_| (0..dim).map(|_| T::of(g.normal())).collect()).collect();
     let target = DiagGauss::new((0..dim).map(|i| 0.5 + i as f64 * 0.3).collect(), vec![0.0; dim]);
-    let ctxj = json!({"n_chains": n_chains, "dim": dim, "a": a, "d": d, "b": b, "seed": seed, "L": l, "eps": eps});
+    // the progress-reporting entry point makes the same promise; C10 states it for n_collect >= 4
+    // (with a single kept draw the diagnostics at the end of run_progress panic: outside every
+    // listed property, recorded in DESIGN.md as an observation)
+    let progress = a >= 4 && g.chance(0.4);
+    let ctxj = json!({"T": T::NAME, "backend": bname, "first_runs_via_run_progress": progress, "n_chains": n_chains, "dim": dim, "a": a, "d": d, "b": b, "seed": seed, "L": l, "eps": eps});
     let r = guard(|| {
-        let mk = || HMC::<f64, B64, DiagGauss>::new(target.clone(), inits.clone(), eps, l).set_seed(seed);
+        let mk = || HMC::<T, B, DiagGauss>::new(target.clone(), inits.clone(), T::of(eps), l).set_seed(seed);
         let mut s1 = mk();
         let mut s2 = mk();
         let mut s3 = mk();
         hook::enable();
-        let r1a = tensor3_bits(&s1.run(a, d));
+        let r1a = tensor3_bits(&if progress { s1.run_progress(a, d).unwrap().0 } else { s1.run(a, d) });
         let ev_a = hook::take().len();
-        let r1b = tensor3_bits(&s1.run(b, 0));
+        let r1b = tensor3_bits(&if progress && b >= 4 { s1.run_progress(b, 0).unwrap().0 } else { s1.run(b, 0) });
         let ev_b = hook::take().len();
         hook::disable();
         let r2 = tensor3_bits(&s2.run(a + b, d));
@@ -397,7 +487,11 @@ fn hmc_case(_ctx: &Ctx, rep: &mut Report, case: u64, g: &mut Sm64) {
     }
     rep.held();
     rep.count("hmc_histories");
-    rep.distinct(("hmc", n_chains, dim, a, d, b, l));
+    rep.count(&format!("hmc_histories[T={} backend={bname}]", T::NAME));
+    if progress {
+        rep.count("hmc_histories_via_run_progress");
+    }
+    rep.distinct(("hmc", T::NAME, bname.to_string(), n_chains, dim, a, d, b, l));
     rep.sample(json!({"monitor": mon, "sampler": "HMC", "ctx": ctxj}));
 }
 
@@ -544,8 +638,15 @@ pub fn run(ctx: &Ctx, rep: &mut Report) {
         let mut g = ctx.rng("real", c);
         match c % 8 {
             0 | 1 | 2 => mh_case(ctx, rep, c, &mut g),
-            3 | 4 => gibbs_case(ctx, rep, c, &mut g),
-            5 | 6 => hmc_case(ctx, rep, c, &mut g),
+            3 => gibbs_case(ctx, rep, c, &mut g),
+            4 => gibbs_stateful_case(ctx, rep, c, &mut g),
+            5 | 6 => match (c / 8) % 4 {
+                // scalar type and backend float type are independent parameters of the sampler
+                0 => hmc_case::<f64, B64>(ctx, rep, c, &mut g, "ndarray-f64"),
+                1 => hmc_case::<f32, B32>(ctx, rep, c, &mut g, "ndarray-f32"),
+                2 => hmc_case::<f32, B64>(ctx, rep, c, &mut g, "ndarray-f64"),
+                _ => hmc_case::<f64, B32>(ctx, rep, c, &mut g, "ndarray-f32"),
+            },
             _ => nuts_case(ctx, rep, c, &mut g),
         }
     }
